@@ -69,6 +69,8 @@ class C14:
         if tier != "thorough" and cfg["n"] > 8 and rc.random() < 0.6:
             cfg = E.sample_cfg(name, rc, tier)  # fewer big instances in the quick tier
         spec = U.sample_policy_spec(pol, name, rc)
+        if pol == "matnet" and cfg["gen"]["num_loc"] > spec["embed_dim"]:
+            spec["embed_dim"] = 64  # MatNet's one-hot column embedding needs embed_dim >= number of nodes
         mode, k = "greedy", 0
         if pol == "am" and name in MULTISTART_ENVS and rc.random() < 0.3:
             mode, k = "multistart", rc.randint(2, max(2, min(4, _n_starts_cap(cfg))))
@@ -341,3 +343,105 @@ def compare(ctx, solo, got, i, s, pos, B, ci, kind):
                         solo=aS, batch=aB, got=lB, ref=lS, padded=len(aB) - TS, **base)
             raise StopRun()
     run.probe("rows_compared")
+
+
+# ------------------------------------------------------------------------------------------------
+# canary mutants (sensitivity self-test; in-memory only, never applied to /repo)
+# ------------------------------------------------------------------------------------------------
+def _swap(obj, attr, new):
+    import contextlib
+
+    @contextlib.contextmanager
+    def cm():
+        old = obj.__dict__[attr] if attr in obj.__dict__ else getattr(obj, attr)
+        setattr(obj, attr, new)
+        try:
+            yield
+        finally:
+            setattr(obj, attr, old)
+
+    return cm()
+
+
+def _canary_context_peeks_batch():
+    """A context embedding that adds a feature averaged over the whole batch (`td[...].mean(0)`)."""
+    from rl4co.models.nn.env_embeddings.context import EnvContext
+
+    orig = EnvContext.forward
+
+    def mutant(self, embeddings, td):
+        out = orig(self, embeddings, td)
+        peek = embeddings.mean(dim=tuple(range(embeddings.dim() - 1)))
+        return out + 2.0 * peek
+
+    return _swap(EnvContext, "forward", mutant)
+
+
+def _canary_squeeze_b1():
+    """`.squeeze()` on a [B,1] feature: the CVRP remaining-capacity feature loses its batch dim at B=1."""
+    from rl4co.models.nn.env_embeddings.context import VRPContext
+
+    def mutant(self, embeddings, td):
+        return (td["vehicle_capacity"] - td["used_capacity"]).squeeze()[..., None]
+
+    return _swap(VRPContext, "_state_embedding", mutant)
+
+
+def _canary_batchnorm_train():
+    """Batch norm left in train mode inside eval(): normalises with the statistics of the batch."""
+    import torch.nn as nn
+    import torch.nn.functional as F
+
+    from rl4co.models.nn.ops import Normalization
+
+    orig = Normalization.forward
+
+    def mutant(self, x):
+        if isinstance(self.normalizer, nn.BatchNorm1d):
+            n = self.normalizer
+            return F.batch_norm(x.reshape(-1, x.size(-1)), None, None, n.weight, n.bias, True, 0.0,
+                                n.eps).view(*x.size())
+        return orig(self, x)
+
+    return _swap(Normalization, "forward", mutant)
+
+
+def _canary_cache_rolled():
+    """PrecomputedCache: the graph context of row b is taken from row b-1 (regrouping error; the
+    identity at B=1)."""
+    from rl4co.models.zoo.am.decoder import AttentionModelDecoder
+
+    orig = AttentionModelDecoder._precompute_cache
+
+    def mutant(self, embeddings, num_starts=0):
+        cache = orig(self, embeddings, num_starts=num_starts)
+        if isinstance(cache.graph_context, torch.Tensor):
+            cache.graph_context = cache.graph_context.roll(1, 0)
+        return cache
+
+    return _swap(AttentionModelDecoder, "_precompute_cache", mutant)
+
+
+def _canary_pad_loglik():
+    """Finished rows keep accumulating log-probability while batch-mates are still decoding (the step
+    log-prob of a padded row is that of its batch neighbour)."""
+    from rl4co.utils.decoding import DecodingStrategy
+
+    orig = DecodingStrategy.step
+
+    def mutant(self, logits, mask, td=None, action=None, **kw):
+        done = td["done"].reshape(td.shape[0], -1)[:, 0].clone()
+        td = orig(self, logits, mask, td, action=action, **kw)
+        lp = self.logprobs[-1]
+        if lp.dim() == 1 and bool(done.any()) and not bool(done.all()):
+            self.logprobs[-1] = torch.where(done, lp.roll(1, 0), lp)
+        return td
+
+    return _swap(DecodingStrategy, "step", mutant)
+
+
+C14.CANARIES = {"context_peeks_batch": _canary_context_peeks_batch,
+                "squeeze_b1": _canary_squeeze_b1,
+                "batchnorm_train": _canary_batchnorm_train,
+                "cache_rolled": _canary_cache_rolled,
+                "pad_loglik": _canary_pad_loglik}
